@@ -2,6 +2,8 @@ import PcVerif.Ops.Util
 import PcVerif.Ops.Detect
 import PcVerif.Ops.Base
 import PcVerif.Ops.Geometry
+import PcVerif.Ops.TextFormats
+import PcVerif.Ops.Xml
 namespace PcVerif.Ops
-def table : List (String × Proto.Handler) := utilOps ++ detectOps ++ baseOps ++ geoOps
+def table : List (String × Proto.Handler) := utilOps ++ detectOps ++ baseOps ++ geoOps ++ textFormatOps ++ xmlOps
 end PcVerif.Ops
